@@ -132,7 +132,7 @@ func (m *consModel) exec(o *opDef, n int64) *execErr {
 		r = nthCell(s, max(0, cellLen(s)-2))
 	case "butlast", "butlast2", "subseq-0-2", "subseq-1", "subseq-1-3", "subseq-0-0", "copy-list", "reverse", "mapcar",
 		"maprow-list*", "maprow-list", "maprow-cons", "maprow-append",
-		"via-vector", "via-vector-set", "via-values", "copy-seq", "concatenate", "map-list", "copy-tree", "revappend", "ldiff":
+		"via-vector", "via-vector-set", "via-values", "copy-seq", "concatenate", "map-list", "copy-tree", "revappend":
 		r = mkList(o.want(elemsOf(s), nil, n), nil)
 	case "append1":
 		r = s
@@ -349,7 +349,7 @@ func (m *sliceModel) exec(o *opDef, n int64) *execErr {
 		}
 	case "maprow-list*", "maprow-list", "maprow-cons", "maprow-append":
 		r = []int64{s[0], s[0]}
-	case "via-vector", "via-vector-set", "via-values", "copy-seq", "concatenate", "map-list", "copy-tree", "revappend", "ldiff":
+	case "via-vector", "via-vector-set", "via-values", "copy-seq", "concatenate", "map-list", "copy-tree", "revappend":
 		r = clone(o.want(s, nil, 0))
 	case "append1":
 		r = clone(s)
